@@ -98,6 +98,73 @@ def scenario(shape):
         sim.close()
 
 
+def crash_scenario(shape):
+    '''The window must also survive a crash: k blocks are indexed with the daemon already at the tip (reorg limit
+    L concrete), the process dies at a symbolic durable operation, restarts and resumes; then undo information must
+    exist for every height in (tip-L, tip] and exactly min(L, k-1) blocks can be backed out.'''
+    import electrumx.server.block_processor as bpmod
+    from vlib.world import Crash
+    from props import c04
+    eng = engine()
+    k, L = shape['k'], shape['L']
+    sim = chain.Sim(reorg_limit=L, activation=0, daemon_height=k - 1)
+    try:
+        sim.open()
+        blocks = [sim.gen_block(shape['blocks'][i], f'b{i}') for i in range(k)]
+        sim.world.durable.crash_at = eng.fresh_int('crash_at', 0, None)
+        sim.world.durable.armed = True
+        committed = [-1]
+        flush = shape['flush']
+        start = 0
+        crashed = False
+        while True:
+            try:
+                c04._drive(sim, blocks, flush, start, committed)
+                break
+            except Crash:
+                crashed = True
+                sim.world.durable.armed = False
+                state = sim.open()
+                start = state.height + 1
+                flush = []
+        sim.world.durable.armed = False
+        tip = k - 1
+        db = sim.db
+        for h in range(k):
+            if h > tip - L:
+                eng.prove(db.read_undo_info(h) is not None,
+                          'after a crash and resume undo information for a height inside the window is missing',
+                          {'signature': 'window-missing-after-crash', 'height': h})
+        done = 0
+        for j in range(1, k):
+            blk = sim.chain[-1]
+            try:
+                sim.backup(blk)
+            except bpmod.ChainError:
+                break
+            sim.chain.pop()
+            done += 1
+            chain.check_index(sim, f'backed-{j}', check_fs=False, check_history=False)
+        eng.prove(done == min(L, k - 1), 'after a crash and resume the blocks of the window cannot be undone (or more can)',
+                  {'signature': 'window-after-crash', 'undone': done})
+        symx.observe('crashed', crashed)
+        symx.observe('undone', done)
+    finally:
+        sim.close()
+
+
+def crash_shapes(tier):
+    cbA = {'cb': 'A'}
+    sp = {'cb': 'B', 'txs': [{'ins': 1, 'outs': 'AC'}]}
+    out = [{'k': 3, 'L': 2, 'blocks': [cbA, sp, sp], 'flush': ['n', 'n', 'n']},
+           {'k': 3, 'L': 2, 'blocks': [cbA, sp, sp], 'flush': ['f', 'f', 'n']}]
+    if tier == 'thorough':
+        out += [{'k': 3, 'L': 1, 'blocks': [cbA, sp, sp], 'flush': ['n', 'f', 'n']},
+                {'k': 4, 'L': 2, 'blocks': [cbA, sp, cbA, sp], 'flush': ['n', 'h', 'f', 'n']},
+                {'k': 4, 'L': 3, 'blocks': [cbA, sp, sp, sp], 'flush': ['f', 'n', 'n', 'n']}]
+    return out
+
+
 def shapes(tier):
     cbA = {'cb': 'A'}
     sp = {'cb': 'B', 'txs': [{'ins': 1, 'outs': 'AC'}]}
@@ -122,4 +189,13 @@ KERNELS = [
            outside='longer runs (the arithmetic is per block); REORG_LIMIT <= 0 (not a sensible configuration)',
            assumptions=['LevelDB modelled by MemStore', 'meta files modelled by MemFS'],
            witnesses=2),
+    Kernel('CRASHWIN', crash_scenario, crash_shapes,
+           desc='the undo window after a crash at a symbolic durable operation, restart and resume',
+           encodes=['electrumx/server/db.py:DB.flush_utxo_db', 'flush_undo_infos', 'clear_excess_undo_info',
+                    'read_undo_info', 'electrumx/server/block_processor.py:BlockProcessor.advance_block', 'backup_block'],
+           bounds='k = 3 (quick) / 3..4 (thorough) blocks indexed with the daemon already at the tip, reorg limit 2 '
+                  '(thorough: 1..3), flush schedules per shape; crash point: every durable operation (symbolic integer)',
+           outside='two crashes; crash during a reorganisation (C05)',
+           assumptions=['as C04: batches and puts atomic, completed file writes survive', 'LevelDB modelled by MemStore'],
+           witnesses=1, prescribe=('sha256',)),
 ]
